@@ -1620,6 +1620,7 @@ func Run(cfg hx.Config) error {
 	// the zip-of-zips export of updater/ (black box, oracle only)
 	quiet()
 	v1Witness(r)
+	v1Headers(r)
 	nv := cfg.N(300, 6000)
 	for i := 0; i < nv && !r.Stop(); i++ {
 		v1Scenario(r, rnd)
